@@ -83,7 +83,8 @@ def hostile_name_form(rng, i):
     """(form, channel). Acceptable: PyXFormError, or well-formed output."""
     bad = rng.choice(BAD_NAMES)
     ch = rng.choice(["choices-header", "instance-attr", "bind-attr", "body-attr", "settings-attribute", "namespaces-prefix", "settings-suffixed-header",
-                     "ctl-char-label", "ctl-char-choice", "ctl-char-default", "ctl-char-title", "loop-choice-name", "loop-choice-name", "question-name", "group-name"])
+                     "ctl-char-label", "ctl-char-choice", "ctl-char-default", "ctl-char-title", "ctl-char-hint", "ctl-char-message", "ctl-char-extra", "ctl-char-version",
+                     "ctl-char-calculation", "ctl-char-appearance", "ctl-char-attr", "loop-choice-name", "loop-choice-name", "question-name", "group-name"])
     f = gen.simple_form([("text", "q1", {"label": "L1"}), ("select_one l1", "q2", {"label": "L2"})],
                         choices={"l1": [{"name": "a", "label": "A"}, {"name": "b", "label": "B"}]})
     if ch == "choices-header":
@@ -125,6 +126,22 @@ def hostile_name_form(rng, i):
             f.choices["l1"][0]["label"] = f"A{c}"
         elif ch == "ctl-char-default":
             f.survey[0].cells["default"] = f"d{c}"
+        elif ch == "ctl-char-hint":
+            f.survey[0].cells[rng.choice(["hint", "guidance_hint", "hint::en"])] = f"h{c}h"
+            f.survey[0].cells.setdefault("hint", "h")
+        elif ch == "ctl-char-message":
+            f.survey[0].cells.update({"constraint": ". != ''", rng.choice(["constraint_message", "constraint_message::en"]): f"m{c}"})
+        elif ch == "ctl-char-extra":
+            for c_ in f.choices["l1"]:
+                c_["extra"] = f"x{c}"
+        elif ch == "ctl-char-version":
+            f.settings[rng.choice(["version", "instance_name", "submission_url", "style", "attribute::note"])] = f"v{c}1"
+        elif ch == "ctl-char-calculation":
+            f.survey[0].cells[rng.choice(["relevant", "constraint", "calculation", "choice_filter"])] = f"'a{c}' != ''"
+        elif ch == "ctl-char-appearance":
+            f.survey[0].cells["appearance"] = f"w1{c}"
+        elif ch == "ctl-char-attr":
+            f.survey[0].cells[rng.choice(["bind::custom", "body::custom", "instance::custom"])] = f"a{c}"
         else:
             f.settings["form_title"] = f"T{c}"
         ch = "ctl-char:" + ch.split("-")[-1]
